@@ -8,9 +8,19 @@ let n_of_int n = if n = 0 then N0 else Npos (pos_of_int n)
 let z_of_int n = if n = 0 then Z0 else if n > 0 then Zpos (pos_of_int n) else Zneg (pos_of_int (-n))
 let rec int_of_pos = function XH -> 1 | XO p -> 2 * int_of_pos p | XI p -> 2 * int_of_pos p + 1
 let int_of_n = function N0 -> 0 | Npos p -> int_of_pos p
-(* decimal printing/reading of arbitrary-size Z through OCaml strings of digits is
-   avoided: values exchanged as ints fit in 62 bits; float mantissas (53 bits) too *)
+(* values read as ints fit in 62 bits (int_of_string fails otherwise); float mantissas (53 bits) too *)
 let int_of_z = function Z0 -> 0 | Zpos p -> int_of_pos p | Zneg p -> - (int_of_pos p)
+(* exact decimal printing of a Z of any size: numbers of at most 61 bits through OCaml ints,
+   larger ones by doubling a little-endian list of decimal digits *)
+let rec bits_of_pos = function XH -> 1 | XO p | XI p -> 1 + bits_of_pos p
+let rec dec_double ds carry = match ds with
+  | [] -> if carry = 0 then [] else [carry]
+  | d :: r -> let v = 2 * d + carry in (v mod 10) :: dec_double r (v / 10)
+let rec dec_of_pos = function XH -> [1] | XO p -> dec_double (dec_of_pos p) 0 | XI p -> dec_double (dec_of_pos p) 1
+let string_of_pos p =
+  if bits_of_pos p <= 61 then string_of_int (int_of_pos p)
+  else String.concat "" (List.rev_map string_of_int (dec_of_pos p))
+let string_of_z = function Z0 -> "0" | Zpos p -> string_of_pos p | Zneg p -> "-" ^ string_of_pos p
 
 let parse_str tok =
   let body = String.sub tok 1 (String.length tok - 1) in
@@ -43,7 +53,7 @@ let rec print v = match v with
   | VNone -> add "N"
   | VBool true -> add "T"
   | VBool false -> add "F"
-  | VInt z -> add "#"; add (string_of_int (int_of_z z))
+  | VInt z -> add "#"; add (string_of_z z)
   | VStr s -> add "\""; add (String.concat "," (List.map (fun c -> string_of_int (int_of_n c)) s))
   | VFloat (m, e) -> add "~"; add (string_of_int (int_of_z m)); add ","; add (string_of_int (int_of_z e))
   | VList l -> add "("; List.iter (fun x -> add " "; print x) l; add " )"
